@@ -47,6 +47,16 @@ func (c *constExpr) Exit(node *Node) {
 					param = nil
 				case *IntegerNode:
 					param = a.Value
+					// The checker may have changed the type of an integer literal
+					// to the type of the function parameter (e.g. float64).
+					if t := a.Type(); t != nil {
+						switch t.Kind() {
+						case reflect.Float32, reflect.Float64,
+							reflect.Int8, reflect.Int16, reflect.Int32, reflect.Int64,
+							reflect.Uint, reflect.Uint8, reflect.Uint16, reflect.Uint32, reflect.Uint64:
+							param = reflect.ValueOf(a.Value).Convert(t).Interface()
+						}
+					}
 				case *FloatNode:
 					param = a.Value
 				case *BoolNode:
